@@ -157,6 +157,8 @@ pub fn corpus() -> Vec<(String, Vec<String>)> {
         // more than one 8 KiB buffer of input, but cheap to build: 1300 lines, 3 distinct
         ("dup-heavy".into(), (0..1300).map(|i| ["abcdefg", "abcxyz", "q"][i % 3].to_string()).collect()),
         ("many".into(), (0..40).map(|i| format!("item{}", i * 7)).collect()),
+        // > 64 KiB with multi-byte characters everywhere (so that some straddle every power-of-two buffer boundary)
+        ("big-multibyte".into(), (0..6000).map(|i| ["äöü€", "日本語テキスト", "q", "𝔸💩x"][i % 4].to_string()).collect()),
     ]
 }
 
@@ -215,6 +217,7 @@ pub fn make_case(channel: &str, lines: &[String], content: &[u8], cfg: &Cfg, rng
         seed: rng.next_u64(),
         events: vec![],
         dchunk: vec![],
+        env: vec![],
         note: String::new(),
     }
 }
@@ -234,6 +237,7 @@ pub fn make_probe_case(content: &[u8], cfg: &Cfg, rng: &mut Rng) -> Case {
         seed: rng.next_u64(),
         events: vec![],
         dchunk: vec![],
+        env: vec![],
         note: String::new(),
     }
 }
@@ -330,4 +334,37 @@ pub fn unusable_streams() -> Vec<(String, Vec<u8>)> {
             v
         }),
     ]
+}
+
+/// Environment variables a user's shell may carry; none of them may change what grex prints.
+pub fn random_env(rng: &mut Rng) -> Vec<(String, String)> {
+    const POOL: &[(&str, &str)] = &[
+        ("TERM", "dumb"),
+        ("TERM", "xterm-256color"),
+        ("NO_COLOR", "1"),
+        ("CLICOLOR", "0"),
+        ("CLICOLOR_FORCE", "1"),
+        ("COLUMNS", "20"),
+        ("LINES", "5"),
+        ("LANG", "tr_TR.UTF-8"),
+        ("LC_ALL", "C"),
+        ("LC_CTYPE", "POSIX"),
+        ("RUST_BACKTRACE", "1"),
+        ("RUST_BACKTRACE", "full"),
+        ("RUST_LOG", "trace"),
+        ("HOME", "/nonexistent"),
+        ("TZ", "Pacific/Kiritimati"),
+        ("PATH", ""),
+        ("TMPDIR", "/nonexistent"),
+        ("CLAP_COLOR", "always"),
+    ];
+    let n = rng.range(1, 3);
+    let mut v: Vec<(String, String)> = vec![];
+    for _ in 0..n {
+        let (k, val) = rng.pick(POOL);
+        if !v.iter().any(|(k2, _)| k2 == k) {
+            v.push((k.to_string(), val.to_string()));
+        }
+    }
+    v
 }
